@@ -40,7 +40,7 @@ theorem exists_pos_of_sum_pos : ∀ (l : List Script), 0 < sumCosts l → ∃ s 
   | nil => simp
   | cons s l ih =>
     intro h
-    simp only [sumCosts_cons] at h
+    simp only [sumCosts_consZ] at h
     by_cases hs : 0 < s.cost
     · exact ⟨s, List.mem_cons_self, hs⟩
     · obtain ⟨s', hm, hp⟩ := ih (by omega)
@@ -68,7 +68,7 @@ theorem moveCosts_le (rem ins : List Nat) (cells : List (List Nat)) (g : Move ×
   | nil => intro r c; simp [moveCostsFrom, positionsFrom]
   | cons mv moves ih =>
     intro r c
-    simp only [moveCostsFrom, positionsFrom, List.zip_cons_cons, List.map_cons, List.sum_cons, sumCosts_cons]
+    simp only [moveCostsFrom, positionsFrom, List.zip_cons_cons, List.map_cons, List.sum_cons, sumCosts_consZ]
     have h1 := hg mv r c
     have h2 := ih (Move.next r c mv).1 (Move.next r c mv).2
     omega
@@ -111,18 +111,18 @@ theorem good_strEdits (a b : Str) : Good (strEdits a b) := by
   · split
     · exact good_mkMatch 1
     · refine good_compound .str rfl _ _ _ _ ?_ ?_
-      · simp only [strSubs, sumCosts_append]
+      · simp only [strSubs, sumCosts_appendZ]
         apply Nat.le_trans _ (Nat.le_add_right _ _)
         apply Nat.le_trans _ (Nat.le_add_left _ _)
         apply solve_total_le_subs
         intro mv r c
         cases mv with
-        | diag => simp only [moveCost, relabel_cost, mkMatch_cost]; exact cellAt_charCells_le _ _ r c
+        | diag => simp only [moveCost, relabel_cost, mkMatch_costZ]; exact cellAt_charCells_le _ _ r c
         | up =>
-          simp only [moveCost, mkInsert_cost, ones]
+          simp only [moveCost, mkInsert_costZ, ones]
           exact getD_map_le _ (fun _ => 1) r 0
         | left =>
-          simp only [moveCost, mkRemove_cost, ones]
+          simp only [moveCost, mkRemove_costZ, ones]
           exact getD_map_le _ (fun _ => 1) c 0
       · intro s hs
         simp only [strSubs, List.mem_append, List.mem_map] at hs
@@ -188,7 +188,7 @@ theorem good_edScript (fcs tcs : List Tree) (pen : Nat) (tbl : List (List Script
     Good (edScript fcs tcs pen tbl) := by
   simp only [edScript]
   refine good_compound .ed rfl _ _ _ _ ?_ ?_
-  · simp only [sumCosts_append]
+  · simp only [sumCosts_appendZ]
     apply Nat.le_trans _ (Nat.le_add_right _ _)
     apply Nat.le_trans _ (Nat.le_add_left _ _)
     apply solve_total_le_subs
@@ -198,10 +198,10 @@ theorem good_edScript (fcs tcs : List Tree) (pen : Nat) (tbl : List (List Script
       simp only [moveCost, relabel_cost]
       exact cellAt_tab_le (fun r c => ((tbl.getD (c + (trimLens fcs tcs).1) []).getD (r + (trimLens fcs tcs).1) (mkMatch 0)).cost) _ _ r c
     | up =>
-      simp only [moveCost, mkInsert_cost]
+      simp only [moveCost, mkInsert_costZ]
       exact getD_map_le _ (fun (c : Tree) => c.size + pen) r _
     | left =>
-      simp only [moveCost, mkRemove_cost]
+      simp only [moveCost, mkRemove_costZ]
       exact getD_map_le _ (fun (c : Tree) => c.size + pen) c _
   · intro s hs
     simp only [List.mem_append, List.mem_map] at hs
